@@ -400,7 +400,7 @@ theorem graphMapTable_no_default (s : State) (h : Inv s) (a : Nat) (d : Dir) :
 theorem gmBounded_run (directed : Bool) (ops : List GM.Op) (hops : ∀ op ∈ ops, GMJudge.OpBounded 100 op) :
     GMBounded (run (State.empty directed) ops).1 := by
   have hr := run_spec (State.empty directed) ops (inv_empty directed)
-  have hbd := GMJudge.specRun_bounded (SG.empty directed) 100 ops (GMJudge.bounded_empty directed 100) hops
+  have hbd := GMJudge.specRun_bounded (SimpleGraphSpec.SG.empty directed) 100 ops (GMJudge.bounded_empty directed 100) hops
   rw [abs_empty] at hr
   rw [← hr.2.1] at hbd
   intro n hn
